@@ -6,7 +6,7 @@
          (v1: carried row index) and core.read_data_page_v2 (slice, prev_i = 0). *)
 From Coq Require Import NArith List Bool.
 From Pq Require Import Format.Nested Impl.CAssemble Proofs.NestedProofs Proofs.CAssembleProofs
-  Proofs.CAssemblePagesProofs.
+  Proofs.CAssemblePagesProofs Proofs.NestedMapProofs.
 Import ListNotations.
 Open Scope N_scope.
 
@@ -38,6 +38,53 @@ Theorem C15_pages_partial :
     run_v1 sh (length rows) pages = AOk rows.
 Proof. exact pages_v1_spec. Qed.
 Print Assumptions C15_pages_partial.
+
+(* the same for the rows a writer shredded (C15_assemble_shred + C15_pages_partial) *)
+Theorem C15_pages_rows_partial :
+  forall (V : Type) (sh : shape) (rows : list (row V)) (pages : list (page V)),
+    wf_rows sh rows = true -> pages_stream pages = shred sh rows ->
+    pages_aligned sh pages = true -> good_split sh pages = true ->
+    run_v1 sh (length rows) pages = AOk rows.
+Proof. exact pages_v1_shred. Qed.
+Print Assumptions C15_pages_rows_partial.
+
+(* v2 data pages (read_data_page_v2 as repaired by the fix: commits - null from the schema; the
+   call is _assemble_objects(assign[idx:idx+num_rows], ..., prev_i=0); idx += num_rows).  A v2 page
+   begins at a row boundary and announces its rows (DataPageHeaderV2.num_rows), i.e. every page is
+   an accepted stream of its own: for every such page sequence the rows of all pages, in order. *)
+Theorem C15_v2_pages :
+  forall (V : Type) (sh : shape) (pages : list (page V * nat)) (rowss : list (list (row V))),
+    Forall2 (v2_page_ok V sh) pages rowss ->
+    run_v2 false sh (length (concat rowss)) pages = AOk (concat rowss).
+Proof. exact pages_v2_spec. Qed.
+Print Assumptions C15_v2_pages.
+
+(* MAP, spec: the key and value leaf columns of MAP<required key, optional/required value> are
+   shredded like lists; assembling both and pairing the k-th key with the k-th value of the same
+   row gives the maps back (null map -> None, empty map -> no pairs, null values kept, order kept) *)
+Theorem C15_map_assemble_shred :
+  forall (K V : Type) (sh : shape) (rows : list (map_row K V)),
+    forallb (wf_map_row sh) rows = true ->
+    assemble_map_spec sh (fst (shred_map sh rows)) (snd (shred_map sh rows)) = Some rows.
+Proof. exact assemble_map_shred. Qed.
+Print Assumptions C15_map_assemble_shred.
+
+(* MAP, impl, PARTIAL (same guard as C15_pages_partial, on both leaf chunks): the two object
+   arrays read_col fills, zipped by read_row_group_arrays (dict(zip(k, v)) if k is not None else
+   None), hold exactly the (key, value) pairs of every row, in order.  Python's dict itself
+   (hashing, duplicate keys) is outside the model. *)
+Theorem C15_map_pages_partial :
+  forall (K V : Type) (sh : shape) (rows : list (map_row K V)) (kpages : list (page K)) (vpages : list (page V)),
+    forallb (wf_map_row sh) rows = true ->
+    pages_stream kpages = fst (shred_map sh rows) -> pages_stream vpages = snd (shred_map sh rows) ->
+    pages_aligned (key_shape sh) kpages = true -> good_split (key_shape sh) kpages = true ->
+    pages_aligned sh vpages = true -> good_split sh vpages = true ->
+    match run_v1 (key_shape sh) (length rows) kpages, run_v1 sh (length rows) vpages with
+    | AOk ka, AOk va => zip_maps ka va = Some (map (pairs_of K V) rows)
+    | _, _ => False
+    end.
+Proof. exact map_pages_v1. Qed.
+Print Assumptions C15_map_pages_partial.
 
 (* the parameters read_col derives through schema.py (max_repetition_level, max_definition_level,
    null = not is_required(path[0])) for the three-level LIST / MAP leaf paths are the
